@@ -53,6 +53,7 @@ X = ('x',)
 K = ('K',)
 K2 = ('K2',)               # a second event type, registered (if at all) before K: iteration over the map meets it first
 OTHER = ('other',)         # some other object (another key, another listener): equal to nothing tracked
+UBOOL = ('ubool',)         # a test the domain cannot decide (callable(x)); only usable where the other operands of and / or decide the result
 
 
 class _Break(Exception):
@@ -251,6 +252,8 @@ class Interp:
     def truth(self, v):
         if v == NONE:
             return False
+        if v == UBOOL:
+            raise Unsupported('a test the subscription-map domain does not decide (callable(..))')
         if isinstance(v, tuple) and v[0] == 'bool':
             return v[1]
         if isinstance(v, L):
@@ -277,7 +280,8 @@ class Interp:
         if isinstance(e, ast.UnaryOp) and isinstance(e.op, ast.USub) and isinstance(e.operand, ast.Constant) and isinstance(e.operand.value, int):
             return ('int', -e.operand.value)
         if isinstance(e, ast.UnaryOp) and isinstance(e.op, ast.Not):
-            return ('bool', not self.truth(self.ev(e.operand, env)))
+            v_ = self.ev(e.operand, env)
+            return UBOOL if v_ == UBOOL else ('bool', not self.truth(v_))
         if isinstance(e, ast.Name):
             if e.id in env:
                 return env[e.id]
@@ -300,12 +304,16 @@ class Interp:
         if isinstance(e, ast.BoolOp):
             is_and = isinstance(e.op, ast.And)
             v = None
+            undecided = False
             for x in e.values:
                 v = self.ev(x, env)
+                if v == UBOOL:
+                    undecided = True          # the operands here are tests without effects: a later operand that decides the result decides it
+                    continue
                 t = self.truth(v)
                 if t != is_and:
-                    return v
-            return v
+                    return ('bool', t) if undecided else v
+            return UBOOL if undecided else v
         if isinstance(e, ast.IfExp):
             return self.ev(e.body if self.truth(self.ev(e.test, env)) else e.orelse, env)
         if isinstance(e, ast.Attribute):
@@ -435,8 +443,20 @@ class Interp:
         f = e.func
         ft = unparse(f)
         if ft == 'isinstance':
-            # the arguments of the analysed call are of the documented types -- or None where the method allows it
-            return ('bool', not (e.args and self.ev(e.args[0], env) == NONE))
+            # the arguments of the analysed call are of the documented types -- or None where the method allows it; the tracked listener is an
+            # EventListener and the tracked keys are EventTypes: neither is a class, a string, a number or a container
+            v_ = self.ev(e.args[0], env) if e.args else None
+            if v_ == NONE:
+                return ('bool', False)
+            if len(e.args) == 2 and v_ in (X, K, K2):
+                tn = {unparse(t).split('.')[-1] for t in (e.args[1].elts if isinstance(e.args[1], ast.Tuple) else [e.args[1]])}
+                own = 'EventListener' if v_ == X else 'EventType'
+                foreign = {'type', 'str', 'int', 'float', 'bool', 'bytes', 'dict', 'list', 'tuple', 'set', 'frozenset', 'EventType', 'EventListener'} - {own}
+                if own not in tn and tn <= foreign:
+                    return ('bool', False)
+            return ('bool', True)
+        if ft == 'callable' and len(e.args) == 1:
+            return ('bool', False) if self.ev(e.args[0], env) == NONE else UBOOL
         if ft == 'len' and len(e.args) == 1:
             v = self.ev(e.args[0], env)
             if isinstance(v, L):
@@ -469,7 +489,7 @@ class Interp:
                     fn2 = ci._pdsa_orig_methods[m]            # the method as written, before any matching-form rewrite
                 if fn2 is None or self.depth >= 3:
                     raise Unsupported(f'call of self.{m}')
-                params = [a.arg for a in fn2.args.args[1:]]
+                params = [a.arg for a in (fn2.args.args if any(unparse(d) == 'staticmethod' for d in fn2.decorator_list) else fn2.args.args[1:])]
                 if e.keywords or len(e.args) != len(params):
                     raise Unsupported(f'call of self.{m} with defaults / keywords')
                 vals = [self.ev(a, env) for a in e.args]
